@@ -302,6 +302,55 @@ func checkIteratorBoundTest(p *Prog, res *Result, rule string) {
 				res.und(rule, construct, p.pos(f.Pos()), "too many flags")
 				continue
 			}
+			// polarity of a boolean test: does true mean "in range" (the default) or "beyond the end"? Decided where the
+			// result is used: a caller that returns a non-nil error (io.EOF) under result == true takes true for "beyond"
+			trueMeansOut := false
+			if bt, ok := f.Signature.Results().At(f.Signature.Results().Len() - 1).Type().Underlying().(*types.Basic); ok && bt.Kind() == types.Bool {
+				p.buildCallersLite()
+				for _, cs := range p.staticCallers[f] {
+					call, ok := cs.(*ssa.Call)
+					if !ok {
+						continue
+					}
+					g := call.Parent()
+					for _, gb := range g.Blocks {
+						ret, ok := gb.Instrs[len(gb.Instrs)-1].(*ssa.Return)
+						if !ok || len(ret.Results) == 0 {
+							continue
+						}
+						last := resolve(ret.Results[len(ret.Results)-1])
+						isErr := false
+						if ld, ok := last.(*ssa.UnOp); ok && ld.Op == token.MUL {
+							if _, isG := ld.X.(*ssa.Global); isG {
+								isErr = true
+							}
+						}
+						if definitelyNonNilError(last) {
+							isErr = true
+						}
+						if !isErr {
+							continue
+						}
+						for _, cf := range dominatingFacts(gb) {
+							if cf.Call == call && cf.Want {
+								trueMeansOut = true
+							}
+						}
+					}
+				}
+			}
+			flip := func(o boundOutcome) boundOutcome {
+				if !trueMeansOut {
+					return o
+				}
+				switch o {
+				case outIn:
+					return outOut
+				case outOut:
+					return outIn
+				}
+				return o
+			}
 			for m := 0; m < 1<<len(flagVars); m++ {
 				flags := map[*types.Var]bool{}
 				var desc []string
@@ -315,6 +364,7 @@ func checkIteratorBoundTest(p *Prog, res *Result, rule string) {
 					o := outUnknown
 					var at *ssa.Return
 					for _, r := range rs {
+						r.out = flip(r.out)
 						if r.out == outUnknown {
 							return outUnknown, r.ret, false
 						}
@@ -332,7 +382,7 @@ func checkIteratorBoundTest(p *Prog, res *Result, rule string) {
 				case !okE && eqAt != nil && (func() bool {
 					// a return that admits the key although it equals the bound is a violation even if other returns differ
 					for _, r := range tabulateBound(f, cmps, flags, 0) {
-						if r.out == outIn {
+						if flip(r.out) == outIn {
 							eqAt = r.ret
 							return true
 						}
@@ -396,7 +446,31 @@ func checkBackwardSeekKey(p *Prog, r *Roles, res *Result, rule string) {
 	if startP == nil && len(f.Params) >= 3 {
 		startP = f.Params[2]
 	}
-	isStart := func(v ssa.Value) bool { return startP != nil && p.resolveDeep(v) == ssa.Value(startP) }
+	var isStartD func(v ssa.Value, d int) bool
+	isStartD = func(v ssa.Value, d int) bool {
+		if startP == nil || d > 3 {
+			return false
+		}
+		rv := p.resolveDeep(v)
+		if rv == ssa.Value(startP) {
+			return true
+		}
+		// the parameter of a helper of the adapter that is handed start by every caller
+		if q, ok := rv.(*ssa.Parameter); ok && q.Parent() != f {
+			acts := p.paramActuals(q)
+			if len(acts) == 0 {
+				return false
+			}
+			for _, a := range acts {
+				if !isStartD(a, d+1) {
+					return false
+				}
+			}
+			return true
+		}
+		return false
+	}
+	isStart := func(v ssa.Value) bool { return isStartD(v, 0) }
 	isLenStart := func(v ssa.Value) bool {
 		c, ok := resolve(v).(*ssa.Call)
 		if !ok {
@@ -512,7 +586,13 @@ func checkBackwardSeekKey(p *Prog, r *Roles, res *Result, rule string) {
 		return "the seek key of the backward iteration is not recognised as start followed by one zero byte", false
 	}
 	n := 0
-	for _, c := range callsIn(f) {
+	var scope []ssa.CallInstruction
+	for _, g := range p.AllFuncs {
+		if g.Pkg == f.Pkg && g.Blocks != nil {
+			scope = append(scope, callsIn(g)...)
+		}
+	}
+	for _, c := range scope {
 		if !c.Common().IsInvoke() && c.Common().StaticCallee() == nil {
 			continue
 		}
@@ -530,7 +610,7 @@ func checkBackwardSeekKey(p *Prog, r *Roles, res *Result, rule string) {
 			continue
 		}
 		n++
-		construct := fmt.Sprintf("tikv.Iter: seek key of IterReverse #%d", n)
+		construct := fmt.Sprintf("tikv: seek key of IterReverse #%d", n)
 		if why, ok := isSuccessor(args[len(args)-1]); ok {
 			res.ok(rule, construct, p.pos(c.Pos()), why)
 		} else {
@@ -538,7 +618,7 @@ func checkBackwardSeekKey(p *Prog, r *Roles, res *Result, rule string) {
 		}
 	}
 	if n == 0 {
-		res.und(rule, "tikv.Iter: IterReverse", p.pos(f.Pos()), "no call of IterReverse found in the adapter's Iter")
+		res.und(rule, "tikv: IterReverse", p.pos(f.Pos()), "no call of IterReverse found in the adapter")
 	}
 }
 
